@@ -1,5 +1,5 @@
 //@unit sm2_exchange
-//@serves C14 C15
+//@serves C14 C15 C20
 //@source gm-sm2/src/exchange.rs
 //@assume #[derive(Clone)] on Sm2PrivateKey returns an equal value (shim_clone_sk, external_body whose body is the replaced call)
 //@rewrite-text sk.clone() ==> shim_clone_sk(sk)
